@@ -260,6 +260,15 @@ impl C31 {
         if w.reps[r].known.is_empty() {
             return Ok(());
         }
+        // in one run of four the document also gets a string from the far end of the Basic Multilingual Plane (variation
+        // selector, ligature, fullwidth letter, replacement character): three-byte characters next to the surrogate gap, which
+        // the generator's alphabet (ASCII, Latin-1, emoji, ZWJ sequences) does not contain
+        if w.cfg.p1 % 4 == 2 {
+            let exotic = ["\u{2764}\u{fe0f}", "\u{fb01}x", "\u{ff21}\u{ff22}", "a\u{fffd}b"][(w.cfg.p2 % 4) as usize];
+            w.exec(&Ev::Edit { r: r as u8, op: EditOp::Put { obj: ObjSel::Root, key: w.cfg.p2, val: SvE::Str(exotic.to_string()) } });
+            w.exec(&Ev::Commit { r: r as u8, msg: None, dt: 1 });
+            w.stats.bump("probe.far_bmp_string");
+        }
         let step = w.step;
         let fail = |oracle: &str, sig: &str, d: String| violation("C31", oracle, sig, step, format!("replica {r}: {d}"));
         let mut anon = match w.reps[r].doc.anonymize() {
